@@ -331,7 +331,7 @@ COMM = ("CommunicationError", "ProtocolError", "TransmissionError",
 ANY = None
 
 
-def classify_outcome(fn):
+def classify_outcome(fn, what=None):
     """-> (tag, value); unexpected exception types become Violations"""
     try:
         r = fn()
@@ -340,7 +340,7 @@ def classify_outcome(fn):
     except IOError as e:
         return "IOError", e
     except Exception as e:
-        raise unexpected(e, oracle="driver-internal-exception")
+        raise unexpected(e, oracle="driver-internal-exception", detail=what)
     return "data", r
 
 
@@ -533,7 +533,8 @@ def run_fault(case, ctx):
     clf.target = sc.target
     link.arm()
     what = describe(case)
-    tag, val = classify_outcome(lambda: clf.exchange(sc.send, sc.timeout))
+    tag, val = classify_outcome(lambda: clf.exchange(sc.send, sc.timeout),
+                                what)
     tag = check_general(sc, tag, val, what)
     ctx.label("outcome:" + tag)
     # specific mapping
@@ -808,7 +809,8 @@ def run_udp(case, ctx):
         ctx.label("excluded-dev:" + cls)
         return
     what = "udp %s %s %r" % (kind, event, case.get("datagram"))
-    tag, val = classify_outcome(lambda: clf.exchange(sc.send, sc.timeout))
+    tag, val = classify_outcome(lambda: clf.exchange(sc.send, sc.timeout),
+                                what)
     tag = check_general(sc, tag, val, what)
     ctx.label("outcome:" + tag)
     if event not in ("valid",):
@@ -885,7 +887,7 @@ def run_mixed(case, ctx):
     what = "%s %s faults %r" % (drv, kind, sorted(script.items()))
     try:
         tag, val = classify_outcome(lambda: clf.exchange(sc.send,
-                                                         sc.timeout))
+                                                         sc.timeout), what)
         tag = check_general(sc, tag, val, what)
     finally:
         # the fault that ended the exchange is the last one applied
